@@ -33,7 +33,7 @@ Theorem C02_erasing_unobserved_captures_preserves_result_lists :
   forall e keep fuel t s1 s2,
   (forall g, keep g = false -> observed g t = false) -> agree keep s1 s2 ->
   rrel (Forall2 (agree keep)) (sem e fuel t s1) (sem e fuel (erase keep t) s2).
-Proof. exact erase_unobserved. Qed.
+Proof. exact erase_unobserved_obs. Qed.
 Print Assumptions C02_erasing_unobserved_captures_preserves_result_lists.
 
 (* Writer level: the quick program (code words and string table) is exactly the full program of
